@@ -492,6 +492,13 @@ func (s *StoreRec) IncrNextSenderMsgSeqNum() error {
 	return err
 }
 func (s *StoreRec) IncrNextTargetMsgSeqNum() error {
+	if f := s.eng.SF.Fail; f != nil {
+		// (op "IncrTarget": only workloads that ask for it refuse the inbound counter)
+		if err := f("IncrTarget", s.inner.NextTargetMsgSeqNum()); err != nil {
+			s.rec("IncrTarget", s.inner.NextTargetMsgSeqNum(), 0, nil, err)
+			return err
+		}
+	}
 	err := s.inner.IncrNextTargetMsgSeqNum()
 	s.rec("IncrTarget", s.inner.NextTargetMsgSeqNum(), 0, nil, err)
 	return err
